@@ -10,39 +10,55 @@
 (***************************************************************************)
 EXTENDS MidiBase
 
+\* Apalache type aliases (comments for TLC)
+\* @typeAlias: cc14St = { cn: Int, v: Int };
+\* @typeAlias: cc14Res = { st: $cc14St, out: Seq(Seq(Int)) };
+Cc14Aliases == TRUE
+
 (************************** the 14-bit CC message **************************)
+\* @type: (Int) => Bool;
 Cc14NewPanics(cn) == cn > 31                  \* ControlChange14BitMessage::new
+\* @type: (Seq(Int)) => Seq(Seq(Int));
 Cc14Encode(msg) ==                            \* msg = <<ch, cn, val>>, cn <= 31
     << CC(msg[1], msg[2], Hi(msg[3])), CC(msg[1], msg[2] + 32, Lo(msg[3])) >>
 
 (******************************* the machine *******************************)
+\* @type: $cc14St;
 Cc14Init == [cn |-> None, v |-> None]         \* msb_controller_number, value_msb
 
+\* @type: ($cc14St, Int, Int) => $cc14Res;
 Cc14ProcessValueMsb(st, n, v) ==
     [st |-> [cn |-> n, v |-> v], out |-> <<>>]
 
+\* @type: ($cc14St, Int, Int, Int) => $cc14Res;
 Cc14ProcessValueLsb(st, c, n, v) ==
     IF st.cn = None \/ st.v = None THEN [st |-> st, out |-> <<>>]       \* `?` early returns
     ELSE IF n # st.cn + 32         THEN [st |-> st, out |-> <<>>]       \* not the matching LSB
     ELSE [st |-> st, out |-> << <<c, st.cn, Join(st.v, v)>> >>]          \* state is kept
 
 \* feed of a message that HAS a channel (the channel dispatch is in the wrapper)
+\* @type: ($cc14St, Seq(Int)) => $cc14Res;
 Cc14Feed(st, m) ==
     IF ~IsCC(m) THEN [st |-> st, out |-> <<>>]                            \* `_ => None`
     ELSE IF CcNum(m) <= 31 THEN Cc14ProcessValueMsb(st, CcNum(m), CcVal(m))
     ELSE IF CcNum(m) <= 63 THEN Cc14ProcessValueLsb(st, MsgChannel(m), CcNum(m), CcVal(m))
     ELSE [st |-> st, out |-> <<>>]                                        \* `_ => None`
 
+\* @type: ($cc14St) => $cc14St;
 Cc14Reset(st) == Cc14Init
 
 (***************** C08 monitor, ghost form (property text) *****************)
 (* g = the most recent Control Change with a controller number below 32   *)
 (* fed on this channel since creation or reset: <<n, v>>, or <<>> if none. *)
+\* @type: Seq(Int);
 Cc14GhostInit == <<>>
+\* @type: (Seq(Int), Seq(Int)) => Seq(Int);
 Cc14GhostFeed(g, m) == IF IsCC(m) /\ CcNum(m) < 32 THEN <<CcNum(m), CcVal(m)>> ELSE g
+\* @type: (Seq(Int)) => Seq(Int);
 Cc14GhostReset(g) == <<>>
 
 \* the complete list of reports the property allows for this input
+\* @type: (Seq(Int), Seq(Int)) => Seq(Seq(Int));
 Cc14Expected(g, m) ==
     IF /\ IsCC(m) /\ CcNum(m) >= 32 /\ CcNum(m) <= 63
        /\ g # <<>> /\ g[1] = CcNum(m) - 32
@@ -50,10 +66,12 @@ Cc14Expected(g, m) ==
     ELSE <<>>
 
 (* C16 for this scanner: what cannot be part of a 14-bit CC *)
+\* @type: (Seq(Int)) => Bool;
 Cc14NonContributing(m) == ~IsCC(m) \/ CcNum(m) > 63
 
 (* C07, scanner half: in ANY state, feeding Cc14Encode(msg) yields nothing  *)
 (* and then exactly msg.                                                   *)
+\* @type: ($cc14St, Seq(Int)) => Bool;
 Cc14RoundTripOK(st, msg) ==
     LET e  == Cc14Encode(msg)
         r1 == Cc14Feed(st, e[1])
